@@ -46,11 +46,14 @@ pub fn eval_svx(req: &str, script: &str) -> Case {
             }
         }
     }
-    // Hash: the feed must be a function of the slice: length, then the bytes of the elements
-    let bytes: String = v.iter().map(|x| x.to_le_bytes().iter().map(|b| format!("{:02x}", b)).collect::<String>()).collect();
-    let want_rest = format!("hash=U{};B{};|len={}", v.len(), bytes, v.len());
-    if fail.is_none() && rest != want_rest {
-        fail = Some(format!("Hash feeds {} for the slice {:?} (expected {}): equal vectors would hash differently", rest, v, want_rest));
+    // Hash: what is fed to the hasher must be a function of the slice alone: the same as for the vector
+    // that holds this slice after nothing but pushes (how std lays the bytes out is not our business:
+    // the exact feed is compared with the model by the mirror, not asserted here)
+    let canonical: Vec<String> = v.iter().map(|x| format!("P{}", x)).collect();
+    let canon_out = pubgrub::verif::smallvec_script(&canonical.join(" "));
+    let canon_rest = canon_out.split_once('|').map(|(_, r)| r.to_string()).unwrap_or_default();
+    if fail.is_none() && rest != canon_rest {
+        fail = Some(format!("Hash / len differ between two vectors holding the same slice {:?}: {} after this script, {} after pushes only", v, rest, canon_rest));
     }
     let mut tags = vec![];
     if imp.contains("F:") {
